@@ -880,6 +880,25 @@ def m_box_new(P, c, args, dt):
     return BoxV(args[0])
 
 
+@model('std::boxed::Box::new_uninit')
+def m_box_new_uninit(P, c, args, dt):
+    return BoxV(None)
+
+
+@model('std::boxed::box_assume_init_into_vec_unsafe')
+def m_box_into_vec(P, c, args, dt):
+    # vec![a, b, ..]: Box<MaybeUninit<[T; N]>> written through its raw pointer, then turned into a Vec
+    v = args[0].v
+    while isinstance(v, Agg) and v.ty != '[]':
+        nxt = [x for x in v.f if x is not None]
+        if len(nxt) != 1:
+            raise Unsupported('unexpected MaybeUninit layout')
+        v = nxt[0]
+    if not isinstance(v, Agg):
+        raise Unsupported('vec! macro box without array')
+    return VecV(list(v.f))
+
+
 @model('std::rc::Rc::new')
 def m_rc_new(P, c, args, dt):
     return BoxV(args[0], 'Rc')
